@@ -215,6 +215,22 @@ def replicaStep (st : ReplicaSt) (toks : List String) : ReplicaSt × String :=
   | "local-timeout" :: rest =>
     let v := (natField "view" rest).getD st.r.view
     finish st c (step keys c st.sync (.localTimeout v))
+  | ["wire", "requestblock", spec] =>
+    -- the RequestBlock handler: the hash field is copied into a 32-byte array (shorter: zero padded,
+    -- longer: truncated, absent: all zeros) and looked up in the LOCAL store only
+    let ans : Option String :=
+      if spec == "nil" || spec == "empty" then some "notfound"
+      else if spec.startsWith "blk:" then
+        match splitChar '/' (dropStr 4 spec) with
+        | [nm] => (s.blocks.lookup nm).map fun b => if (st.r.chain.localGet b.hash).isSome then s!"block({st.w.hashName b.hash})" else "notfound"
+        | [nm, len] => match s.blocks.lookup nm, len.toNat? with
+          | some b, some l => some (if l ≥ 32 && l ≤ 64 && (st.r.chain.localGet b.hash).isSome then s!"block({st.w.hashName b.hash})" else "notfound")
+          | _, _ => none
+        | _ => none
+      else none
+    match ans with
+    | some a => (st, s!"reqblock({a}) | {dumpR st.w c st.r}")
+    | none => (st, "bad-op")
   | "wire" :: kind :: name :: rest =>
     let st1 := if kind == "propose" then { st with nwire := st.nwire + 1 } else st
     match wireEvent st kind name rest with
